@@ -1,0 +1,104 @@
+//! Verification hooks (only compiled with `--cfg fontc_verif`).
+//!
+//! A thread-local handle to a controller; every function is a no-op when no
+//! controller is installed on the calling thread.
+
+use std::{cell::RefCell, sync::Arc};
+
+/// A synchronisation step about to be performed by the calling thread.
+#[derive(Debug, Clone, PartialEq, Eq, Hash)]
+pub enum Op {
+    TaskStart,
+    Dec(&'static str),
+    Send(String),
+    TaskEnd,
+    LoopHead(String),
+    Load(&'static str),
+    RecvBlocking(String),
+    TryRecv(String),
+    MainRmw(&'static str),
+}
+
+/// Something that happened, not a scheduling point.
+#[derive(Debug, Clone, PartialEq, Eq, Hash)]
+pub enum Ev {
+    Launch {
+        job: String,
+        read: String,
+        write: String,
+        counters: Vec<&'static str>,
+    },
+    ExecBegin(String),
+    ExecEnd(String),
+    Access {
+        write: bool,
+        id: String,
+    },
+    Received(String),
+    QueueOrder(Vec<String>),
+    HandleSuccess(String),
+    JobAdded(String),
+    AccessRewritten {
+        job: String,
+        access: String,
+    },
+    Persisted {
+        id: String,
+        path: String,
+        ok: bool,
+    },
+}
+
+pub trait Hooks: Send + Sync {
+    fn point(&self, op: Op);
+    fn event(&self, ev: Ev);
+    fn spawn(&self, f: Box<dyn FnOnce() + Send + 'static>);
+    fn join_all(&self);
+}
+
+thread_local! {
+    static HANDLE: RefCell<Option<Arc<dyn Hooks>>> = const { RefCell::new(None) };
+}
+
+pub fn install(h: Option<Arc<dyn Hooks>>) {
+    HANDLE.with(|c| *c.borrow_mut() = h);
+}
+
+pub fn current() -> Option<Arc<dyn Hooks>> {
+    HANDLE.with(|c| c.borrow().clone())
+}
+
+pub fn active() -> bool {
+    HANDLE.with(|c| c.borrow().is_some())
+}
+
+pub fn point(op: Op) {
+    if let Some(h) = current() {
+        h.point(op)
+    }
+}
+
+pub fn event(ev: impl FnOnce() -> Ev) {
+    if let Some(h) = current() {
+        h.event(ev())
+    }
+}
+
+/// Returns the closure back if no controller is installed.
+pub fn spawn(
+    f: Box<dyn FnOnce() + Send + 'static>,
+) -> Option<Box<dyn FnOnce() + Send + 'static>> {
+    match current() {
+        Some(h) => {
+            h.spawn(f);
+            None
+        }
+        None => Some(f),
+    }
+}
+
+pub fn join_all() {
+    if let Some(h) = current() {
+        h.join_all()
+    }
+}
